@@ -167,8 +167,10 @@ func (h *killedHandler) handleRestart() {
 	} else {
 		h.ctx.restarting = nil
 		atomic.StoreInt32(&h.ctx.state, running)
-		h.ctx.tell(true, h.ctx.ref, new(vivid.OnLaunch))
 		h.ctx.mailbox.Resume()
+		// 新实例的 OnLaunch 必须先于邮箱中已排队的任何消息（包括先前到达的系统消息，例如 OnKill）被处理，
+		// 因此在当前回合内直接投递，而不是排到系统队列的末尾
+		h.ctx.HandleEnvelop(mailbox.NewEnvelop(true, h.ctx.ref, h.ctx.ref, new(vivid.OnLaunch)))
 
 		// 通知事件流
 		eventStream := h.ctx.EventStream()
